@@ -114,7 +114,14 @@ MutsBoth(o, prof) == [r \in 1..Len(o.rows) |->
    Cardinality({i \in 1..Width(o) : /\ CountsAsMut(o, o.rows[r].s[i]) /\ Occ(Col(o, i), o.rows[r].s[i]) = 1
                                     /\ ProfCount(prof, o.rows[r].s[i], i) = 0})]
 ProfileOf(o) == [i \in 1..Width(o) |-> Col(o, i)]
-ProfileCounts(o) == {<<c, [i \in 1..Width(o) |-> Occ(Col(o, i), c)]>> : c \in Range(FlattenSeq(SeqsOf(o)))}
+\* the count profile of the property: case-folded counts per character and site
+ProfileCounts(o) == {<<c, [i \in 1..Width(o) |-> Cardinality({r \in 1..Len(o.rows) : Up(o.rows[r].s[i]) = c})]>>
+                       : c \in {Up(x) : x \in Range(FlattenSeq(SeqsOf(o)))}}
+\* an observed profile (sequence of [c, n]) with its rows merged by case-folded character
+FoldObservedProfile(prof) ==
+  LET W == IF Len(prof) = 0 THEN 0 ELSE Len(prof[1].n) IN
+  {<<c, [i \in 1..W |-> SumSeq([k \in 1..Len(prof) |-> IF Up(prof[k].c) = c THEN prof[k].n[i] ELSE 0])]>>
+     : c \in {Up(prof[k].c) : k \in 1..Len(prof)}}
 
 \* ---- mutations relative to a reference sequence ------------------------------------------------------
 \* residues goalign's IUPAC table knows (others make the call fail): A..N codes, and - * X . as "no base"
